@@ -4,9 +4,16 @@
 // ":am <arena> oa la ob lb" and ":as <arena> oa ob" put BOTH payloads into ONE exactly-sized heap block (so that ASan sees
 // any read past it): memory buffers [arena+oa, +la) and [arena+ob, +lb); C strings starting at arena+oa and arena+ob, the
 // arena being followed by a single NUL.
+// ":rd <family> <store path> <accessor> <stored value | :none> <default>": ONE read of a stored value through one accessor of
+// one family of read-back accessors (MockNamedValue getters; the actual call's returnXValue / returnXValueOrDefault;
+// MockSupport's xReturnValue / returnXValueOrDefault; the C table's accessors on the actual call and on mock_c(); the
+// MockValue_c union of ->returnValue()), the value having been stored with andReturnValue(T) (:cpp) or the C table's
+// andReturnXValue (:c).  Prints what came back, canonically (":fail" = the test failed / the union's tag names another member).
 #include "CppUTest/TestHarness.h"
 #include "CppUTest/TestTestingFixture.h"
 #include "CppUTestExt/MockNamedValue.h"
+#include "CppUTestExt/MockSupport.h"
+#include "CppUTestExt/MockSupport_c.h"
 #include "hlib.h"
 using namespace hl;
 
@@ -70,11 +77,242 @@ static void getterBody()
     }
 }
 
+
+// ---------------------------------------------------------------------------------------------------------------------
+// reads through the accessor families
+struct Stored {
+    bool set = false; std::string tag; int ity = 0; long long z = 0; double d = 0, tol = 0; bool isNull = false;
+    const char* str = 0; uintptr_t addr = 0; bool b = false; const unsigned char* mem = 0; size_t memLen = 0;
+};
+struct Dflt { bool b = false; long long z = 0; double d = 0; const char* s = 0; uintptr_t a = 0; };
+enum Fam { F_NV, F_AC, F_ACD, F_MS, F_MSD, F_CAC, F_CACD, F_CMS, F_CMSD, F_CACT, F_CMST };
+enum Acc { A_BOOL, A_INT, A_UINT, A_LONG, A_ULONG, A_LLONG, A_ULLONG, A_DOUBLE, A_STRING, A_PTR, A_CPTR, A_FPTR, A_MEM };
+static Stored gSt; static Dflt gD; static Fam gFam; static Acc gAcc; static bool gViaC; static std::string gOut;
+typedef void (*fptr_t)();
+
+static std::string pB(bool b) { return std::string(":b ") + (b ? "1" : "0"); }
+static std::string pI(long long z) { return ":i " + hz(z); }
+static std::string pU(unsigned long long u) { return ":i " + hx(u); }
+static std::string pD(double d) { unsigned long long b; if (d != d) b = 0x7ff8000000000000ULL; else memcpy(&b, &d, 8); return ":d " + hx(b); }
+static std::string pS(const char* s) { return ":s " + hstr(s); }
+static std::string pA(const void* p) { return ":a " + hx((unsigned long long)(uintptr_t)p); }
+static std::string pF(fptr_t p) { return ":a " + hx((unsigned long long)(uintptr_t)p); }
+
+static void parseStored(Toks& t, Stored& s)
+{
+    s = Stored();
+    if (t.peek() == ":none") { t.next(); return; }
+    s.set = true; s.tag = t.next();
+    if (s.tag == ":b") s.b = t.u() != 0;
+    else if (s.tag == ":i") { s.ity = t.n(); s.z = t.z(); }
+    else if (s.tag == ":d") { unsigned long long a = t.u(), b = t.u(); memcpy(&s.d, &a, 8); memcpy(&s.tol, &b, 8); }
+    else if (s.tag == ":s") { std::string x; if (t.bytes(x)) { keep.push_back(x); s.str = keep.back().c_str(); } else s.isNull = true; }
+    else if (s.tag == ":p" || s.tag == ":cp" || s.tag == ":f") s.addr = (uintptr_t)t.u();
+    else if (s.tag == ":m") { std::string x; t.bytes(x); keep.push_back(x); s.mem = (const unsigned char*)keep.back().data(); s.memLen = keep.back().size(); }
+    else { fprintf(stderr, "bad stored tag %s\n", s.tag.c_str()); exit(3); }
+}
+static void parseDefault(Toks& t, Dflt& d)
+{
+    d = Dflt();
+    std::string tag = t.next();
+    if (tag == ":b") d.b = t.u() != 0;
+    else if (tag == ":i") d.z = t.z();
+    else if (tag == ":d") { unsigned long long a = t.u(); memcpy(&d.d, &a, 8); }
+    else if (tag == ":s") { std::string x; if (t.bytes(x)) { keep.push_back(x); d.s = keep.back().c_str(); } }
+    else if (tag == ":a") d.a = (uintptr_t)t.u();
+    else if (tag == ":m") { std::string x; t.bytes(x); }
+    else { fprintf(stderr, "bad default tag %s\n", tag.c_str()); exit(3); }
+}
+static void storeNamed(MockNamedValue& v, const Stored& s)
+{
+    if (!s.set) return;
+    if (s.tag == ":b") v.setValue(s.b);
+    else if (s.tag == ":i") switch (s.ity) {
+        case 0: v.setValue((int)s.z); break;
+        case 1: v.setValue((unsigned int)s.z); break;
+        case 2: v.setValue((long int)s.z); break;
+        case 3: v.setValue((unsigned long int)s.z); break;
+        case 4: v.setValue((long long)s.z); break;
+        default: v.setValue((unsigned long long)s.z); break;
+    }
+    else if (s.tag == ":d") v.setValue(s.d, s.tol);
+    else if (s.tag == ":s") v.setValue(s.str);
+    else if (s.tag == ":p") v.setValue((void*)s.addr);
+    else if (s.tag == ":cp") v.setValue((const void*)s.addr);
+    else if (s.tag == ":f") v.setValue((fptr_t)s.addr);
+    else v.setMemoryBuffer(s.mem, s.memLen);
+}
+static void storeCpp(MockExpectedCall& e, const Stored& s)
+{
+    if (!s.set) return;
+    if (s.tag == ":b") e.andReturnValue(s.b);
+    else if (s.tag == ":i") switch (s.ity) {
+        case 0: e.andReturnValue((int)s.z); break;
+        case 1: e.andReturnValue((unsigned int)s.z); break;
+        case 2: e.andReturnValue((long int)s.z); break;
+        case 3: e.andReturnValue((unsigned long int)s.z); break;
+        case 4: e.andReturnValue((long long)s.z); break;
+        default: e.andReturnValue((unsigned long long)s.z); break;
+    }
+    else if (s.tag == ":d") e.andReturnValue(s.d);
+    else if (s.tag == ":s") e.andReturnValue(s.str);
+    else if (s.tag == ":p") e.andReturnValue((void*)s.addr);
+    else if (s.tag == ":cp") e.andReturnValue((const void*)s.addr);
+    else if (s.tag == ":f") e.andReturnValue((fptr_t)s.addr);
+    else { fprintf(stderr, "a memory buffer cannot be a return value\n"); exit(3); }
+}
+static void storeC(MockExpectedCall_c* e, const Stored& s)
+{
+    if (!s.set) return;
+    if (s.tag == ":b") e->andReturnBoolValue(s.b ? 1 : 0);
+    else if (s.tag == ":i") switch (s.ity) {
+        case 0: e->andReturnIntValue((int)s.z); break;
+        case 1: e->andReturnUnsignedIntValue((unsigned int)s.z); break;
+        case 2: e->andReturnLongIntValue((long int)s.z); break;
+        case 3: e->andReturnUnsignedLongIntValue((unsigned long int)s.z); break;
+        case 4: e->andReturnLongLongIntValue((long long)s.z); break;
+        default: e->andReturnUnsignedLongLongIntValue((unsigned long long)s.z); break;
+    }
+    else if (s.tag == ":d") e->andReturnDoubleValue(s.d);
+    else if (s.tag == ":s") e->andReturnStringValue(s.str);
+    else if (s.tag == ":p") e->andReturnPointerValue((void*)s.addr);
+    else if (s.tag == ":cp") e->andReturnConstPointerValue((const void*)s.addr);
+    else if (s.tag == ":f") e->andReturnFunctionPointerValue((fptr_t)s.addr);
+    else { fprintf(stderr, "a memory buffer cannot be a return value\n"); exit(3); }
+}
+
+// one row per accessor kind: index, printer, the stem of the C++ name, the stem of the C / MockSupport name, the default handed in
+#define ACCESSORS(X) \
+    X(A_BOOL,   pB, Bool,                bool,                gD.b) \
+    X(A_INT,    pI, Int,                 int,                 (int)gD.z) \
+    X(A_UINT,   pU, UnsignedInt,         unsignedInt,         (unsigned int)gD.z) \
+    X(A_LONG,   pI, LongInt,             longInt,             (long int)gD.z) \
+    X(A_ULONG,  pU, UnsignedLongInt,     unsignedLongInt,     (unsigned long int)gD.z) \
+    X(A_LLONG,  pI, LongLongInt,         longLongInt,         (long long)gD.z) \
+    X(A_ULLONG, pU, UnsignedLongLongInt, unsignedLongLongInt, (unsigned long long)gD.z) \
+    X(A_DOUBLE, pD, Double,              double,              gD.d) \
+    X(A_STRING, pS, String,              string,              gD.s) \
+    X(A_PTR,    pA, Pointer,             pointer,             (void*)gD.a) \
+    X(A_CPTR,   pA, ConstPointer,        constPointer,        (const void*)gD.a) \
+    X(A_FPTR,   pF, FunctionPointer,     functionPointer,     (fptr_t)gD.a)
+
+static std::string readNamed(const MockNamedValue& v)
+{
+    switch (gAcc) {
+#define X(I, P, S, s, D) case I: return P(v.get##S##Value());
+    ACCESSORS(X)
+#undef X
+    case A_MEM: { const unsigned char* p = v.getMemoryBuffer(); return ":m " + hbytes(p, v.getSize()); }
+    }
+    return "?";
+}
+static std::string readActual(MockActualCall& a, bool dflt)
+{
+    switch (gAcc) {
+#define X(I, P, S, s, D) case I: return dflt ? P(a.return##S##ValueOrDefault(D)) : P(a.return##S##Value());
+    ACCESSORS(X)
+#undef X
+    default: break;
+    }
+    return "?";
+}
+static std::string readSupport(MockSupport& m, bool dflt)
+{
+    switch (gAcc) {
+#define X(I, P, S, s, D) case I: return dflt ? P(m.return##S##ValueOrDefault(D)) : P(m.s##ReturnValue());
+    ACCESSORS(X)
+#undef X
+    default: break;
+    }
+    return "?";
+}
+template <class Table> static std::string readCTable(Table* c, bool dflt)
+{
+    switch (gAcc) {
+#define X(I, P, S, s, D) case I: return dflt ? P(c->return##S##ValueOrDefault(D)) : P(c->s##ReturnValue());
+    ACCESSORS(X)
+#undef X
+    default: break;
+    }
+    return "?";
+}
+static std::string readTagged(const MockValue_c& v)
+{
+    switch (gAcc) {
+    case A_BOOL: return v.type == MOCKVALUETYPE_BOOL ? pB(v.value.boolValue != 0) : ":fail";
+    case A_INT: return v.type == MOCKVALUETYPE_INTEGER ? pI(v.value.intValue) : ":fail";
+    case A_UINT: return v.type == MOCKVALUETYPE_UNSIGNED_INTEGER ? pU(v.value.unsignedIntValue) : ":fail";
+    case A_LONG: return v.type == MOCKVALUETYPE_LONG_INTEGER ? pI(v.value.longIntValue) : ":fail";
+    case A_ULONG: return v.type == MOCKVALUETYPE_UNSIGNED_LONG_INTEGER ? pU(v.value.unsignedLongIntValue) : ":fail";
+    case A_LLONG: return v.type == MOCKVALUETYPE_LONG_LONG_INTEGER ? pI(v.value.longLongIntValue) : ":fail";
+    case A_ULLONG: return v.type == MOCKVALUETYPE_UNSIGNED_LONG_LONG_INTEGER ? pU(v.value.unsignedLongLongIntValue) : ":fail";
+    case A_DOUBLE: return v.type == MOCKVALUETYPE_DOUBLE ? pD(v.value.doubleValue) : ":fail";
+    case A_STRING: return v.type == MOCKVALUETYPE_STRING ? pS(v.value.stringValue) : ":fail";
+    case A_PTR: return v.type == MOCKVALUETYPE_POINTER ? pA(v.value.pointerValue) : ":fail";
+    case A_CPTR: return v.type == MOCKVALUETYPE_CONST_POINTER ? pA(v.value.constPointerValue) : ":fail";
+    case A_FPTR: return v.type == MOCKVALUETYPE_FUNCTIONPOINTER ? pF((fptr_t)v.value.functionPointerValue) : ":fail";
+    default: break;
+    }
+    return ":fail";
+}
+
+static void readBody()
+{
+    if (gFam == F_NV) {
+        MockNamedValue v("a");
+        storeNamed(v, gSt);
+        gOut = readNamed(v);
+        return;
+    }
+    // the expectation and its return value
+    if (gViaC) storeC(mock_c()->expectOneCall("f"), gSt);
+    else storeCpp(mock().expectOneCall("f"), gSt);
+    // the actual call, and the read
+    switch (gFam) {
+    case F_AC: case F_ACD: { MockActualCall& a = mock().actualCall("f"); gOut = readActual(a, gFam == F_ACD); break; }
+    case F_MS: case F_MSD: { mock().actualCall("f"); gOut = readSupport(mock(), gFam == F_MSD); break; }
+    case F_CAC: case F_CACD: { MockActualCall_c* a = mock_c()->actualCall("f"); gOut = readCTable(a, gFam == F_CACD); break; }
+    case F_CMS: case F_CMSD: { mock_c()->actualCall("f"); gOut = readCTable(mock_c(), gFam == F_CMSD); break; }
+    case F_CACT: { MockActualCall_c* a = mock_c()->actualCall("f"); gOut = readTagged(a->returnValue()); break; }
+    case F_CMST: { mock_c()->actualCall("f"); gOut = readTagged(mock_c()->returnValue()); break; }
+    default: break;
+    }
+}
+static void readTeardown() { mock().clear(); }
+
+static bool runRead(Toks& t, Out& o)
+{
+    if (t.end() || t.t[t.i] != ":rd") return false;
+    t.next();
+    static const char* fams[] = { ":nv", ":ac", ":acd", ":ms", ":msd", ":cac", ":cacd", ":cms", ":cmsd", ":cact", ":cmst" };
+    static const char* accs[] = { ":bool", ":int", ":uint", ":long", ":ulong", ":llong", ":ullong", ":double", ":string", ":ptr", ":cptr", ":fptr", ":mem" };
+    std::string f = t.next(), via = t.next(), a = t.next();
+    int fi = -1, ai = -1;
+    for (int k = 0; k < 11; k++) if (f == fams[k]) fi = k;
+    for (int k = 0; k < 13; k++) if (a == accs[k]) ai = k;
+    if (fi < 0 || ai < 0 || (via != ":cpp" && via != ":c") || (ai == A_MEM && fi != F_NV)) { fprintf(stderr, "bad read scenario\n"); exit(3); }
+    gFam = (Fam)fi; gAcc = (Acc)ai; gViaC = via == ":c";
+    parseStored(t, gSt); parseDefault(t, gD);
+    gOut = ":fail";
+    {
+        TestTestingFixture fx;
+        fx.setTestFunction(readBody);
+        fx.setTeardown(readTeardown);
+        fx.runAllTests();
+        if (fx.getFailureCount()) gOut = ":fail";
+    }
+    mock().clear();
+    o << gOut;
+    o.flush();
+    return true;
+}
+
 int main()
 {
     Toks t; Out o;
     while (readline(t)) {
         keep.clear(); keep.reserve(4);
+        if (runRead(t, o)) continue;
         MockNamedValue a("a"), b("b");
         if (!buildAliased(t, a, b)) { build(t, a); build(t, b); }
         o << (a.equals(b) ? "1" : "0") << (b.equals(a) ? "1" : "0");
